@@ -18,32 +18,34 @@ BoolStr(b) == IF b THEN "true" ELSE "false"
 QuoteTag(tag) == IF tag = "" THEN "\"\"" ELSE IF tag = Tag2 THEN "\"t\"" ELSE "\"k:\\\"v\\\"\""
 
 \* ------------------------------------------------------------------ type strings (reflect.Type.String)
-\* The package-qualified form uses the package NAME (main.T); inside the brackets of a generic instance the
-\* type arguments are written with the package PATH, which for package main is again "main".
-RECURSIVE Str(_), StrList(_, _, _), FieldsStr(_, _), IMethodsStr(_, _)
-ResultsStr(rs) == IF Len(rs) = 0 THEN "" ELSE IF Len(rs) = 1 THEN " " \o Str(rs[1]) ELSE " (" \o StrList(rs, 1, FALSE) \o ")"
+\* The package-qualified form uses the package NAME (main.T).  Inside the brackets of a generic instance the
+\* type arguments are written as the linker names them: declared types with the package PATH (for package
+\* main again "main") and unexported struct field names qualified by the package (main.b); q = inside brackets.
+RECURSIVE StrQ(_, _), StrList(_, _, _, _), FieldsStr(_, _, _), IMethodsStr(_, _)
+ResultsStr(rs, q) == IF Len(rs) = 0 THEN "" ELSE IF Len(rs) = 1 THEN " " \o StrQ(rs[1], q) ELSE " (" \o StrList(rs, 1, FALSE, q) \o ")"
 IMethodSig(m) == IF m \in {"String", "Error"} THEN "() string" ELSE "() int"
-Str(t) ==
+StrQ(t, q) ==
   CASE t.k = "basic"  -> t.n
     [] t.k = "error"  -> "error"
     [] t.k = "named"  -> "main." \o TName(t)
-    [] t.k = "inst"   -> "main.G[" \o Str(t.a) \o "]"
-    [] t.k = "ptr"    -> "*" \o Str(t.e)
-    [] t.k = "slice"  -> "[]" \o Str(t.e)
-    [] t.k = "array"  -> "[" \o ToString(t.n) \o "]" \o Str(t.e)
-    [] t.k = "map"    -> "map[" \o Str(t.key) \o "]" \o Str(t.e)
-    [] t.k = "chan"   -> IF t.dir = "send" THEN "chan<- " \o Str(t.e)
-                         ELSE IF t.dir = "recv" THEN "<-chan " \o Str(t.e)
-                         ELSE IF t.e.k = "chan" /\ t.e.dir = "recv" THEN "chan (" \o Str(t.e) \o ")"
-                         ELSE "chan " \o Str(t.e)
-    [] t.k = "func"   -> "func(" \o StrList(t.ps, 1, t.v) \o ")" \o ResultsStr(t.rs)
-    [] t.k = "struct" -> IF Len(t.fs) = 0 THEN "struct {}" ELSE "struct { " \o FieldsStr(t.fs, 1) \o " }"
+    [] t.k = "inst"   -> "main.G[" \o StrQ(t.a, TRUE) \o "]"
+    [] t.k = "ptr"    -> "*" \o StrQ(t.e, q)
+    [] t.k = "slice"  -> "[]" \o StrQ(t.e, q)
+    [] t.k = "array"  -> "[" \o ToString(t.n) \o "]" \o StrQ(t.e, q)
+    [] t.k = "map"    -> "map[" \o StrQ(t.key, q) \o "]" \o StrQ(t.e, q)
+    [] t.k = "chan"   -> IF t.dir = "send" THEN "chan<- " \o StrQ(t.e, q)
+                         ELSE IF t.dir = "recv" THEN "<-chan " \o StrQ(t.e, q)
+                         ELSE IF t.e.k = "chan" /\ t.e.dir = "recv" THEN "chan (" \o StrQ(t.e, q) \o ")"
+                         ELSE "chan " \o StrQ(t.e, q)
+    [] t.k = "func"   -> "func(" \o StrList(t.ps, 1, t.v, q) \o ")" \o ResultsStr(t.rs, q)
+    [] t.k = "struct" -> IF Len(t.fs) = 0 THEN "struct {}" ELSE "struct { " \o FieldsStr(t.fs, 1, q) \o " }"
     [] t.k = "iface"  -> IF Len(t.ms) = 0 THEN "interface {}" ELSE "interface { " \o IMethodsStr(t.ms, 1) \o " }"
+Str(t) == StrQ(t, FALSE)
 \* parameter list; the last parameter of a variadic function is written ...T
-StrList(s, i, variadic) ==
+StrList(s, i, variadic, q) ==
   IF i > Len(s) THEN ""
-  ELSE (IF variadic /\ i = Len(s) THEN "..." ELSE "") \o Str(s[i])
-       \o (IF i < Len(s) THEN ", " \o StrList(s, i + 1, variadic) ELSE "")
+  ELSE (IF variadic /\ i = Len(s) THEN "..." ELSE "") \o StrQ(s[i], q)
+       \o (IF i < Len(s) THEN ", " \o StrList(s, i + 1, variadic, q) ELSE "")
 FieldName(fs, i) ==
   LET f == fs[i]
       RECURSIVE EmbName(_)
@@ -61,18 +63,18 @@ FieldExported(fs, i) ==
                      [] t.k = "inst" -> TRUE
                      [] OTHER -> FALSE
   IN IF f.emb THEN EmbExp(f.t) ELSE f.x
-FieldsStr(fs, i) ==
+FieldsStr(fs, i, q) ==
   IF i > Len(fs) THEN ""
-  ELSE (IF fs[i].emb THEN "" ELSE FieldName(fs, i) \o " ") \o Str(fs[i].t)
+  ELSE (IF fs[i].emb THEN "" ELSE (IF q /\ ~fs[i].x THEN "main." ELSE "") \o FieldName(fs, i) \o " ") \o StrQ(fs[i].t, q)
        \o (IF fs[i].tag = "" THEN "" ELSE " " \o QuoteTag(fs[i].tag))
-       \o (IF i < Len(fs) THEN "; " \o FieldsStr(fs, i + 1) ELSE "")
+       \o (IF i < Len(fs) THEN "; " \o FieldsStr(fs, i + 1, q) ELSE "")
 IMethodsStr(ms, i) ==
   IF i > Len(ms) THEN ""
   ELSE (IF ExportedM(ms[i]) THEN "" ELSE "main.") \o ms[i] \o IMethodSig(ms[i])
        \o (IF i < Len(ms) THEN "; " \o IMethodsStr(ms, i + 1) ELSE "")
 
 NameOf(t)    == CASE t.k = "basic" -> t.n [] t.k = "error" -> "error" [] t.k = "named" -> TName(t)
-                  [] t.k = "inst" -> "G[" \o Str(t.a) \o "]" [] OTHER -> ""
+                  [] t.k = "inst" -> "G[" \o StrQ(t.a, TRUE) \o "]" [] OTHER -> ""
 PkgPathOf(t) == IF IsDeclared(t) THEN "main" ELSE ""
 
 \* ------------------------------------------------------------------ struct fields
@@ -178,7 +180,7 @@ EmptyOf(t) == V(t, FALSE, 0, "", <<>>, <<>>)              \* non-nil empty slice
 \* ------------------------------------------------------------------ calling methods found by reflection
 \* Every declared method reads its receiver: the harness derives an int from it ("probe") and
 \*   String/Error return  <TypeName>.<Method>:<probe>,  M1 100+probe,  P1 200+probe,  m0 300+probe;
-\*   Gm returns 9 and Gp 10.
+\*   G's methods do not read their receiver: Gm returns 9 and Gp 10 (Gp also on a nil *G[T]).
 Probe(r) ==
   LET kd == KindOf(r.t) IN
   IF IntKind(kd) THEN r.i
@@ -200,7 +202,7 @@ RECURSIVE CallOn(_, _, _)
 CallOn(v, m, viaPtr) ==
   LET t == v.t IN
   CASE KindOf(t) = "interface" -> IF v.nil THEN Panics ELSE CallOn(v.es[1], m, FALSE)
-    [] t.k = "ptr" -> IF v.nil THEN Panics ELSE CallOn(v.es[1], m, TRUE)
+    [] t.k = "ptr" -> IF v.nil THEN (IF t.e.k = "inst" /\ m = "Gp" THEN "10" ELSE Panics) ELSE CallOn(v.es[1], m, TRUE)
     [] t.k = "inst" -> IF m = "Gm" THEN "9" ELSE "10"
     [] OTHER ->
         IF t.k = "named" /\ (m \in SeqSet(MS[t.ms].v) \/ (viaPtr /\ m \in SeqSet(MS[t.ms].p)))
